@@ -182,6 +182,19 @@ class SimLoop(base_events.BaseEventLoop):
         finally:
             self._leave()
 
+    def step_iterations(self, n):
+        """Run at most n loop iterations (jumping the clock when nothing is ready). Returns iterations run."""
+        self._enter()
+        try:
+            k = 0
+            while k < n:
+                if not self._sim_once():
+                    break
+                k += 1
+            return k
+        finally:
+            self._leave()
+
     def run_forever(self):  # used by run_until_complete
         self._enter()
         try:
